@@ -69,27 +69,123 @@ theorem C02_mac_input_unique (hh hh' ct ct' : Bytes) (f f' : Bool) (i j : Nat)
   obtain ⟨a, b, c, d⟩ := macInput_inj_v2 hh hh' _ _ ct ct' f f' h1 h2 (hl i) (hl j) h
   exact ⟨a, chunkSecretBox_inj i j hi hj b, c, d⟩
 
+/-! ## the reduction -/
+
+/-- **`Reaches`, spelled out**: the run over `items` gets to its `i`-th item
+    (0-based), which is the packet `b` — every earlier item is a packet that was
+    accepted at its position (packet numbers from 1) and was not final. -/
+theorem C02_reaches_def {β : Type} (acc : β → Nat → Option Bytes) (fin : β → Bool)
+    (items : List (Option β)) (i : Nat) (b : β) :
+    Reaches acc fin items i b ↔
+      (items[i]? = some (some b) ∧
+        ∀ j, j < i → ∃ b' c', items[j]? = some (some b') ∧ acc b' (j + 1) = some c' ∧ fin b' = false) :=
+  Iff.rfl
+
+/-- **What `AuthEnc.BreakIn P s H items` is** (definitional unfolding).  It is
+    ANCHORED to the receiver state `s` and the packets `items` of the run:
+
+    * *MAC forgery in this run*: the run reaches its `i`-th packet `b` and
+      accepts it as packet number `i + 1`; `b` carries, at the receiver's
+      position, the authenticator under the receiver's MAC key of the hash of
+      `recvInput s b i` = header hash ‖ nonce(i) ‖ [final byte] ‖ `b.ct` — and no
+      honest message in `H` MACed that payload hash under that MAC key; or
+    * *hash collision in this run*: for such a reached and accepted packet,
+      `recvInput s b i` and the string `honestInput …` an honest sender hashed
+      for chunk `k` of a message of `H` (MACed under the receiver's MAC key)
+      are DIFFERENT strings with the SAME hash.
+
+    (The un-anchored predicates an earlier version used — "some block somewhere
+    carries a valid authenticator on a non-honest hash", "the hash has a
+    collision" — are provable outright and are gone.) -/
+theorem C02_break_def (P : Prims) (s : Decrypt.State) (H : List AuthEnc.Event)
+    (items : List (Option EncBlock)) :
+    AuthEnc.BreakIn P s H items ↔
+      (∃ (i : Nat) (b : EncBlock) (c : Bytes),
+        Reaches (Dec.accept P s) (Decrypt.blockFinal s.version) items i b ∧
+        Dec.accept P s b (i + 1) = some c ∧
+        b.auths[s.position]? =
+          some (payloadAuthenticator P s.macKey (P.hash (AuthEnc.recvInput s b i))) ∧
+        ¬ ∃ e ∈ H, e.macKey = s.macKey ∧ ∃ k c' f', e.plan[k]? = some (c', f') ∧
+            P.hash (AuthEnc.recvInput s b i) = P.hash (AuthEnc.honestInput P s.version e k c' f')) ∨
+      (∃ (i : Nat) (b : EncBlock) (c : Bytes),
+        Reaches (Dec.accept P s) (Decrypt.blockFinal s.version) items i b ∧
+        Dec.accept P s b (i + 1) = some c ∧
+        ∃ e ∈ H, e.macKey = s.macKey ∧ ∃ k c' f', e.plan[k]? = some (c', f') ∧
+          AuthEnc.recvInput s b i ≠ AuthEnc.honestInput P s.version e k c' f' ∧
+          P.hash (AuthEnc.recvInput s b i) = P.hash (AuthEnc.honestInput P s.version e k c' f')) :=
+  Iff.rfl
+
+/-- the two hashed strings, spelled out (V2; V1 has no final byte) -/
+theorem C02_inputs_def (P : Prims) (s : Decrypt.State) (hv : s.version.major = 2) (b : EncBlock) (i : Nat)
+    (e : AuthEnc.Event) (k : Nat) (c : Bytes) (f : Bool) :
+    AuthEnc.recvInput s b i = s.headerHash ++ Nonce.chunkSecretBox i ++ finalByte b.final ++ b.ct ∧
+    AuthEnc.honestInput P s.version e k c f =
+      e.headerHash ++ Nonce.chunkSecretBox k ++ finalByte f ++ P.sbSeal e.payloadKey (Nonce.chunkSecretBox k) c := by
+  have h21 : ¬ ((2 : Int) = 1) := by decide
+  simp [AuthEnc.recvInput, AuthEnc.honestInput, Decrypt.blockFinal, hv, h21]
+
 /-- **The reduction.** Whatever packets arrive, relative to any history `H` of
     honest messages: nothing is released and the run fails; or what is released
-    is the first `m` chunks of ONE honest message with this very header hash —
-    all of it iff the run ends cleanly; or a `Break` is exhibited by that very
-    run (a valid authenticator on a payload hash no honest sender MACed under the
-    receiver's MAC key, or a hash collision).  The adversary may know the payload
-    key (a co-recipient): only the MAC key matters. -/
+    is the first `m` chunks of ONE honest message with this very header hash and
+    MAC key — all of it iff the run ends cleanly; or `AuthEnc.BreakIn P s H items`
+    (see `C02_break_def`): a MAC forgery or a hash collision exhibited by a
+    packet THIS run reached and accepted.  The adversary may know the payload
+    key (a co-recipient): only the MAC key matters.
+
+    `BreakIn` is not always true: `C02_break_not_trivial` below refutes it for a
+    concrete honest run, and `C02_tampered_runs_fail` shows tampered runs landing
+    in the first disjunct.  Nor is it always false: `C02_break_can_hold`.
+
+    Hypotheses.  `hv`, `hhl`: true of every state `processHeader` returns (with
+    lawful primitives).  `hlen`: honest header hashes are 64 bytes.  `hplan`,
+    `hv1`: asked ONLY of the honest messages with this header hash (the rest of
+    the history may mix V1 and V2).
+
+    ASSUMPTIONS, kept as explicit hypotheses:
+    * `hkey`: an honest message with this header hash used the payload key the
+      receiver derived.  For a receiver that processed the honest header itself
+      this is PROVED (`C02_hkey_of_honest_header`); passing from "same header
+      hash" to "same header" is collision resistance of the header hash.
+    * `hone`: at most one honest message has this header hash — freshness of the
+      sender's randomness (ephemeral key and payload key go into the header) plus
+      collision resistance of the header hash. -/
 theorem C02_authentic_or_break (P : Prims) (hP : P.Lawful) (s : Decrypt.State)
     (hv : s.version.major = 1 ∨ s.version.major = 2) (hhl : s.headerHash.length = 64)
     (H : List AuthEnc.Event)
-    (hplan : ∀ e ∈ H, PlanOK e.plan ∧ e.plan.length < 2 ^ 64 - 1 ∧ e.headerHash.length = 64)
-    (hv1 : s.version.major = 1 → ∀ e ∈ H, ∀ p ∈ e.plan, (p.1 = [] ↔ p.2 = true))
+    (hlen : ∀ e ∈ H, e.headerHash.length = 64)
+    (hplan : ∀ e ∈ H, e.headerHash = s.headerHash → PlanOK e.plan ∧ e.plan.length < 2 ^ 64 - 1)
+    (hv1 : s.version.major = 1 → ∀ e ∈ H, e.headerHash = s.headerHash → ∀ p ∈ e.plan, (p.1 = [] ↔ p.2 = true))
     (hkey : ∀ e ∈ H, e.headerHash = s.headerHash → e.payloadKey = s.payloadKey)
-    (hone : ∀ e ∈ H, ∀ e' ∈ H, e.headerHash = e'.headerHash → e = e')
+    (hone : ∀ e ∈ H, ∀ e' ∈ H, e.headerHash = s.headerHash → e'.headerHash = s.headerHash → e = e')
     (items : List (Option EncBlock)) (tail : Tail) :
     let r := Decrypt.run P s items tail 1
     r.bytes = [] ∧ r.err ≠ none ∨
-    (∃ e ∈ H, e.headerHash = s.headerHash ∧ ∃ m, m ≤ e.plan.length ∧ r.bytes = planPrefix e.plan m ∧
-        (r.err = none → m = e.plan.length)) ∨
-    AuthEnc.Break P s H :=
-  AuthEnc.authentic_or_break P hP s hv hhl H hplan hv1 hkey hone items tail
+    (∃ e ∈ H, (e.headerHash = s.headerHash ∧ e.macKey = s.macKey) ∧
+      ∃ m, m ≤ e.plan.length ∧ r.bytes = planPrefix e.plan m ∧ (r.err = none → m = e.plan.length)) ∨
+    AuthEnc.BreakIn P s H items :=
+  AuthEnc.authentic_or_break P hP s hv hhl H hlen hplan hv1 hkey hone items tail
+
+/-- a packet that figures in a break is a packet OF THIS RUN, at its index -/
+theorem C02_break_in_items (P : Prims) (s : Decrypt.State) (H : List AuthEnc.Event)
+    (items : List (Option EncBlock)) (h : AuthEnc.BreakIn P s H items) :
+    ∃ i b c, items[i]? = some (some b) ∧ some b ∈ items ∧ i < items.length ∧
+      Dec.accept P s b (i + 1) = some c := by
+  rcases h with ⟨i, b, c, hr, ha, _⟩ | ⟨i, b, c, hr, ha, _⟩ <;>
+    exact ⟨i, b, c, hr.1, hr.mem, hr.lt, ha⟩
+
+/-- **`hkey`, derived for the honest header**: a receiver that accepts the header
+    an honest sender built (faithful import of the ephemeral key; the secret key
+    that opened the entry is the one the sender addressed there) derives the
+    sender's payload key. -/
+theorem C02_hkey_of_honest_header (P : Prims) (hP : P.Lawful) (valid : Validator) (kr : Keyring)
+    {v : Version} (hv : v = v1 ∨ v = v2) (sender : Option Bytes) (rs : List Encrypt.Recipient)
+    (ephSec pk hh : Bytes) (h : EncHeader) (hhdr : Encrypt.header P v sender ephSec pk rs = .ok h)
+    (log : List KeyCall) (st : Decrypt.State)
+    (hok : Decrypt.processHeader P valid kr hh h = (log, .ok st))
+    (himp : kr.importBoxEphemeralKey (P.boxPub ephSec) = some (P.boxPub ephSec))
+    (hsk : ∀ r, rs[st.position]? = some r → r.pub = P.boxPub st.mki.receiverKey) :
+    st.payloadKey = pk :=
+  hkey_of_honest_header P hP valid kr hv sender rs ephSec pk hh h hhdr log st hok himp hsk
 
 /-! ## attribution: whose MAC key it is -/
 
@@ -166,8 +262,50 @@ theorem C02_sender_receiver_agree_v2 (P : Prims) (hP : P.Lawful) (valid : Valida
     Encrypt.macKeySender P h.version st.position senderSecret ephSecret recipientPub hh = .ok st.macKey :=
   sender_and_receiver_agree_v2 P hP valid kr hh h log st hok hv senderSecret ephSecret recipientPub hs he hr
 
-/-! ## non-vacuity -/
+/-! ## non-vacuity, and non-triviality of the reduction's third disjunct -/
 example : Toy.prims.Lawful := Toy.lawful
+example : Demo.prims.Lawful := Demo.lawful
+
+/-- the honest two-packet run (V2, chunks "A", "B") of the demonstration
+    primitives ends cleanly and releases the plaintext … -/
+theorem C02_honest_run :
+    Decrypt.run Demo.prims Demo.Enc.s [some Demo.Enc.b0, some Demo.Enc.b1] .eof 1 = ⟨[65, 66], none⟩ :=
+  Demo.Enc.honest_run
+
+/-- … and for it the anchored break is FALSE: the third disjunct of
+    `C02_authentic_or_break` is not always true. -/
+theorem C02_break_not_trivial :
+    ¬ AuthEnc.BreakIn Demo.prims Demo.Enc.s [Demo.Enc.e0] [some Demo.Enc.b0, some Demo.Enc.b1] :=
+  Demo.Enc.honest_not_break
+
+/-- tampered runs — packets swapped; a ciphertext byte changed — land in the
+    FIRST disjunct: nothing is released and the run fails -/
+theorem C02_tampered_runs_fail :
+    (let r := Decrypt.run Demo.prims Demo.Enc.s [some Demo.Enc.b1, some Demo.Enc.b0] .eof 1
+     r.bytes = [] ∧ r.err ≠ none) ∧
+    (let r := Decrypt.run Demo.prims Demo.Enc.s
+        [some { Demo.Enc.b0 with ct := Demo.Enc.b0.ct.set 16 66 }, some Demo.Enc.b1] .eof 1
+     r.bytes = [] ∧ r.err ≠ none) := by
+  refine ⟨?_, ?_⟩
+  · show (Decrypt.run Demo.prims Demo.Enc.s [some Demo.Enc.b1, some Demo.Enc.b0] .eof 1).bytes = [] ∧ _
+    rw [Demo.Enc.swapped_run]; exact ⟨rfl, by simp⟩
+  · show (Decrypt.run Demo.prims Demo.Enc.s _ .eof 1).bytes = [] ∧ _
+    rw [Demo.Enc.flipped_run]; exact ⟨rfl, by simp⟩
+
+/-- a truncated run lands in the SECOND disjunct with `m = 1 < 2` and an error -/
+theorem C02_truncated_run :
+    Decrypt.run Demo.prims Demo.Enc.s [some Demo.Enc.b0] .eof 1 = ⟨[65], some .unexpectedEOF⟩ :=
+  Demo.Enc.truncated_run
+
+/-- the third disjunct is not always false either: `Toy.prims` (HMAC ignores the
+    message, secretbox tag ignores the counter) accepts the swapped message, and
+    for that run the break is the only true disjunct -/
+theorem C02_break_can_hold :
+    Decrypt.run Toy.prims Demo.ToyEnc.s [some Demo.ToyEnc.b1, some Demo.ToyEnc.b0] .eof 1
+      = ⟨[66], some .trailingGarbage⟩ ∧
+    AuthEnc.BreakIn Toy.prims Demo.ToyEnc.s [Demo.ToyEnc.e0] [some Demo.ToyEnc.b1, some Demo.ToyEnc.b0] :=
+  ⟨Demo.ToyEnc.swapped_run, Demo.ToyEnc.swapped_break⟩
+
 /-- the honest plans of the sender model satisfy `PlanOK` -/
 example (v : Version) (bs : Nat) (pt : Bytes) : PlanOK (Encrypt.chunkPlan v bs pt) :=
   chunkPlan_final v bs pt
